@@ -8,7 +8,7 @@
      fmt_e prec q     = (mantissa integer with prec+1 digits, decimal exponent) of f"{q:.{prec}e}"
      fmt_f_int nd q   = the integer N such that f"{q:.{nd}f}" shows N / 10^nd
      fmt_e_str, fmt_f_str, fmt_d_p03  = the strings themselves
-     format ops x err   = the body of format_number_with_error; every float operation goes through
+     format ops x err = the body of format_number_with_error; every float operation goes through
                         the operations record ops (division, int -> float, 10**k)
      denote s         = the reader of the property statement: "123.45(67)e+05" denotes
                         X = 12345 * u, E = 67 * u with u = 10^(5 - 2)                                *)
@@ -42,8 +42,11 @@ Definition rhe (n d : Z) : Z :=
 (* Incremental search with a running power of ten; nothing is recomputed.
    norm_up: invariant p = d * 10^e <= n; stops at the last such e.
    norm_dn: invariant p = n * 10^(-e); stops at the first p >= d.
-   The fuel is structural only: [norm_fuel] always suffices (10^fuel > 2^fuel > n, d); for a
-   binary64 magnitude it is at most 53 + 1074 + 1. *)
+   The fuel is explicit and structural only.  DESIGN.md planned the constant 700 with a range
+   hypothesis (10^-350 <= q <= 10^350); [norm_fuel] is derived from the size of the input
+   instead (10^fuel > 2^fuel > n, d), so the specification holds for EVERY positive rational
+   and C20_core needs no range hypothesis.  For a binary64 magnitude the fuel is at most
+   53 + 1074 + 1 and the loop runs at most 324 times. *)
 Fixpoint norm_up (fuel : nat) (n p e : Z) : Z * Z :=
   match fuel with
   | O => (e, p)
@@ -220,15 +223,19 @@ Record fops := mkfops {
 Section Format.
   Variable ops : fops.
 
-  Definition x_exponent_of (x err : FT ops) : Z :=
+  (* the scaling exponent before the repair: no cap, 10**309 raises OverflowError *)
+  Definition x_exponent_old (x err : FT ops) : Z :=
     Z.max (dexp 6 (fmag (fval ops x))) (dexp 6 (fmag (fval ops err)) + 1).
+
+  (* x_exponent = min(x_exponent, 308): 10**309 cannot be converted to a float *)
+  Definition x_exponent_of (x err : FT ops) : Z := Z.min (x_exponent_old x err) 308.
 
   Definition hide_of (k : Z) (x err : FT ops) : bool :=
     ((k =? 0) || (k =? -1))
     || ((k =? 1) && fl_lt (fval ops err) (fl_abs (fval ops (fdiv ops x (fofZ ops 10))))).
 
-  Definition format (x err : FT ops) : res string :=
-    let k := x_exponent_of x err in
+  Definition format_with (expo : FT ops -> FT ops -> Z) (x err : FT ops) : res string :=
+    let k := expo x err in
     if hide_of k x err
     then Ok (render (fval ops x) (fval ops err) None)
     else
@@ -236,6 +243,9 @@ Section Format.
       | Err t => Err t
       | Ok p => Ok (render (fval ops (fdiv ops x p)) (fval ops (fdiv ops err p)) (Some k))
       end.
+
+  Definition format : FT ops -> FT ops -> res string := format_with x_exponent_of.
+  Definition format_old : FT ops -> FT ops -> res string := format_with x_exponent_old.
 End Format.
 
 (* ------------------------------------------------------------------ the reader *)
